@@ -30,12 +30,24 @@ def _lift(x):
     raise SymRaise('TypeError', ('numeric value expected, got %r' % (type(x).__name__,),))
 
 
+def _pi_shift(x):
+    """x = y + q*pi with q the rational coefficient of the bare atom pi"""
+    q = x.t.get((('pi', 1),), Fraction(0))
+    if q == 0:
+        return x, Fraction(0)
+    return x - P({(('pi', 1),): q}), q
+
+
 def sym_sin(x):
     if isinstance(x, _np.ndarray):
         return _map(sym_sin, x)
     x = normal(_lift(x))
     if x.is_zero():
         return P.const(0)
+    y, q = _pi_shift(x)
+    if q != 0 and (2 * q).denominator == 1:
+        k = int(2 * q) % 4        # sin(y + k*pi/2)
+        return [sym_sin(y), sym_cos(y), -sym_sin(y), -sym_cos(y)][k]
     if all(c.numerator % 2 == 0 for c in x.t.values()) and all(c.denominator == 1 for c in x.t.values()):
         h = x * Fraction(1, 2)
         return 2 * sym_sin(h) * sym_cos(h)
@@ -51,6 +63,10 @@ def sym_cos(x):
     x = normal(_lift(x))
     if x.is_zero():
         return P.const(1)
+    y, q = _pi_shift(x)
+    if q != 0 and (2 * q).denominator == 1:
+        k = int(2 * q) % 4        # cos(y + k*pi/2)
+        return [sym_cos(y), -sym_sin(y), -sym_cos(y), sym_sin(y)][k]
     if all(c.numerator % 2 == 0 for c in x.t.values()) and all(c.denominator == 1 for c in x.t.values()):
         h = x * Fraction(1, 2)
         return 2 * sym_cos(h) ** 2 - 1
